@@ -11,7 +11,7 @@ from ..seams import CLOCK, F, T, AMHLmod, reset_world
 from ..seams import LIB_ERRORS
 from ..core import real, RealCodeRaised
 from ..oracle import (L, ed_verify, sig_message, base_mult, point_add, pubkey_of_seed,
-                      scalar_to_int, int_to_scalar, as_key_arg)
+                      scalar_to_int, int_to_scalar, as_key_arg, LOCK_FORMS, LIMITS, in_form)
 
 AMHL = AMHLmod.AMHL
 PID = 'C18'
@@ -62,6 +62,7 @@ def gen_plan(run_seed, idx, tier):
                        'flags': rng.choice(['00', '00', '01', '03', '80', '81', 'a5', '40', 'ff']),
                        'refund': refund and c == 0,
                        'keys': rng.choice(['bytes', 'bytes', 'bytes', 'object']),
+                       'form': rng.choice(LOCK_FORMS), 'limits': rng.below(len(LIMITS)),
                        'witness_as': rng.choice(['bytes', 'bytes', 'object']),
                        # claimants may publish sig || 00 where no flag is needed: the
                        # lock accepts it, and it is what the left neighbour then reads
@@ -463,7 +464,8 @@ class Sim:
                 return
             damaged = len(msg) > 4 or w != self.expected_adapter(ch, hop)
             try:
-                ok = F.run_auth_scripts([w, ch.hops[hop][0]], dict(ch.sf[hop])) is True
+                ok = F.run_auth_scripts([w, in_form(ch.hops[hop][0], ch.spec.get('form', 'object'))],
+                                        dict(ch.sf[hop]), **LIMITS[ch.spec.get('limits', 0)]) is True
             except BaseException:       # noqa
                 run.aux_auth_raised += 1
                 ok = False
@@ -504,7 +506,7 @@ class Sim:
         damaged = len(msg) > 7
         if hop >= ch.n or hop < 0:
             return
-        lock = ch.hops[hop][1]
+        lock = in_form(ch.hops[hop][1], ch.spec.get('form', 'object'))
         flagb = bytes.fromhex(ch.flags) if int(ch.flags, 16) else b''
         item = sig + flagb if len(sig) == 64 else sig
         if len(item) == 64 and ch.spec.get('publish_flag00') and not damaged:
@@ -518,7 +520,8 @@ class Sim:
         CLOCK.begin_call('V')
         try:
             try:
-                r = F.run_auth_scripts([w, lock], {**ch.sf[hop], 'timestamp': tstamp})
+                r = F.run_auth_scripts([w, lock], {**ch.sf[hop], 'timestamp': tstamp},
+                                       **LIMITS[ch.spec.get('limits', 0)])
             except BaseException:   # noqa
                 run.aux_auth_raised += 1
                 r = False
